@@ -15,7 +15,7 @@ import (
 )
 
 func newErr(st *State, origin string, state int8) *ErrV {
-	e := &ErrV{ID: st.newID(), Origin: origin}
+	e := &ErrV{ID: st.newID(), Origin: origin, At: len(st.facts)}
 	if state != 0 {
 		st.errs[e.ID] = state
 	}
